@@ -109,9 +109,15 @@ func (pool *TransactionsPool) Validate(timestamp int64) {
 			rejectedTransactions = append(rejectedTransactions, transaction)
 			continue
 		}
-		fee, err := utxosManagerCopy.CalculateFee(transaction, timestamp)
-		if err != nil {
+		if _, err := utxosManagerCopy.CalculateFee(transaction, timestamp); err != nil {
 			pool.logger.Warn(fmt.Errorf("transaction removed from the transactions pool, failed to calculate fee, transaction: %v\n %w", transaction, err).Error())
+			rejectedTransactions = append(rejectedTransactions, transaction)
+			continue
+		}
+		// Peers verify a block against their confirmed UTXOs only, so the fee must hold there too
+		fee, err := pool.utxosManager.CalculateFee(transaction, timestamp)
+		if err != nil {
+			pool.logger.Warn(fmt.Errorf("transaction removed from the transactions pool, failed to calculate fee against confirmed UTXOs, transaction: %v\n %w", transaction, err).Error())
 			rejectedTransactions = append(rejectedTransactions, transaction)
 			continue
 		}
@@ -183,6 +189,10 @@ func (pool *TransactionsPool) addTransaction(transaction *ledger.Transaction) er
 	_, err := utxoManagerCopy.CalculateFee(transaction, nextBlockTimestamp)
 	if err != nil {
 		return fmt.Errorf("failed to verify fee: %w", err)
+	}
+	// Peers verify a block against their confirmed UTXOs only, so the fee must hold there too
+	if _, err = pool.utxosManager.CalculateFee(transaction, nextBlockTimestamp); err != nil {
+		return fmt.Errorf("failed to verify fee against confirmed UTXOs: %w", err)
 	}
 	pool.mutex.Lock()
 	defer pool.mutex.Unlock()
